@@ -280,5 +280,56 @@ static void blk_typed_pem(void) {
 		  TP_BEGIN("cms") wr_ = cms_to_pem(cms, ml, f); fclose(f); FILE *g_ = fmemopen(txt, tl ? tl : 1, "r"); bl2 = 0; rd_ = cms_from_pem(back, &bl2, sizeof back, g_); same_ = rd_ == 1 && bl2 == ml && !memcmp(back, cms, ml); TP_END(inst * 20 + 13); }
 		vh_sample("{\"block\":\"typed-pem\",\"instance\":%d,\"kinds\":13}", inst); }
 }
-static void body(void) { blk_decoders(); blk_text(); blk_composite(); blk_typed_pem(); blk_values(); }
+/* ---------- decoding into a destination that is not fresh: the decoded value must not depend on what the destination object held before
+   (a zeroed object, an object holding ANOTHER complete key, an object full of 0xAA): same bytes in, byte-identical object out ---------- */
+#define RD_DER(fn, T, call) static int rd_##fn(void *o, const uint8_t *b, size_t bl) { const uint8_t *cp = b; size_t il = bl; T *x = (T *)o; int r = call; return r == 1 && il == 0 ? 1 : r == 1 ? -2 : r; }
+#define RD_PEM(fn, T, call) static int rd_##fn(void *o, const uint8_t *b, size_t bl) { FILE *g = fmemopen((void *)b, bl ? bl : 1, "r"); T *x = (T *)o; int r = call; fclose(g); return r; }
+RD_DER(sm2_public_key_info_from_der, SM2_KEY, sm2_public_key_info_from_der(x, &cp, &il))
+RD_PEM(sm2_public_key_info_from_pem, SM2_KEY, sm2_public_key_info_from_pem(x, g))
+RD_DER(sm2_private_key_from_der, SM2_KEY, sm2_private_key_from_der(x, &cp, &il))
+RD_PEM(sm2_private_key_from_pem, SM2_KEY, sm2_private_key_from_pem(x, g))
+RD_DER(sm2_private_key_info_from_der, SM2_KEY, ({ const uint8_t *at; size_t al; sm2_private_key_info_from_der(x, &at, &al, &cp, &il); }))
+RD_PEM(sm2_private_key_info_from_pem, SM2_KEY, sm2_private_key_info_from_pem(x, g))
+RD_DER(sm2_private_key_info_decrypt_from_der, SM2_KEY, ({ const uint8_t *at; size_t al; sm2_private_key_info_decrypt_from_der(x, &at, &al, "pw", &cp, &il); }))
+RD_PEM(sm2_private_key_info_decrypt_from_pem, SM2_KEY, sm2_private_key_info_decrypt_from_pem(x, "pw", g))
+static int rd_x509_cert_get_subject_public_key(void *o, const uint8_t *b, size_t bl) { return x509_cert_get_subject_public_key(b, bl, (SM2_KEY *)o); }
+RD_DER(sm9_sign_master_key_from_der, SM9_SIGN_MASTER_KEY, sm9_sign_master_key_from_der(x, &cp, &il))
+RD_DER(sm9_sign_master_public_key_from_der, SM9_SIGN_MASTER_KEY, sm9_sign_master_public_key_from_der(x, &cp, &il))
+RD_PEM(sm9_sign_master_public_key_from_pem, SM9_SIGN_MASTER_KEY, sm9_sign_master_public_key_from_pem(x, g))
+RD_PEM(sm9_sign_master_key_info_decrypt_from_pem, SM9_SIGN_MASTER_KEY, sm9_sign_master_key_info_decrypt_from_pem(x, "pw", g))
+RD_DER(sm9_sign_key_from_der, SM9_SIGN_KEY, sm9_sign_key_from_der(x, &cp, &il))
+RD_PEM(sm9_sign_key_info_decrypt_from_pem, SM9_SIGN_KEY, sm9_sign_key_info_decrypt_from_pem(x, "pw", g))
+RD_DER(sm9_enc_master_key_from_der, SM9_ENC_MASTER_KEY, sm9_enc_master_key_from_der(x, &cp, &il))
+RD_DER(sm9_enc_master_public_key_from_der, SM9_ENC_MASTER_KEY, sm9_enc_master_public_key_from_der(x, &cp, &il))
+RD_PEM(sm9_enc_master_public_key_from_pem, SM9_ENC_MASTER_KEY, sm9_enc_master_public_key_from_pem(x, g))
+RD_PEM(sm9_enc_master_key_info_decrypt_from_pem, SM9_ENC_MASTER_KEY, sm9_enc_master_key_info_decrypt_from_pem(x, "pw", g))
+RD_DER(sm9_enc_key_from_der, SM9_ENC_KEY, sm9_enc_key_from_der(x, &cp, &il))
+RD_PEM(sm9_enc_key_info_decrypt_from_pem, SM9_ENC_KEY, sm9_enc_key_info_decrypt_from_pem(x, "pw", g))
+typedef struct { const char *name; int (*rd)(void *, const uint8_t *, size_t); size_t osz; const void *other; uint8_t enc[2400]; size_t el; } rd_t;
+static void blk_reused_destination(void) {
+	if (!vh_block_begin("reused-destination")) return; venv_reset(6600);
+	static SM2_KEY k, ko; static SM9_SIGN_MASTER_KEY sm, smo; static SM9_SIGN_KEY sk, sko; static SM9_ENC_MASTER_KEY em, emo; static SM9_ENC_KEY ek, eko;
+	if (sm2_key_generate(&k) != 1 || sm2_key_generate(&ko) != 1 || sm9_sign_master_key_generate(&sm) != 1 || sm9_sign_master_key_generate(&smo) != 1 || sm9_sign_master_key_extract_key(&sm, "alice", 5, &sk) != 1 || sm9_sign_master_key_extract_key(&smo, "carol", 5, &sko) != 1
+		|| sm9_enc_master_key_generate(&em) != 1 || sm9_enc_master_key_generate(&emo) != 1 || sm9_enc_master_key_extract_key(&em, "bob", 3, &ek) != 1 || sm9_enc_master_key_extract_key(&emo, "dave", 4, &eko) != 1) vh_harness_error("keygen");
+	static rd_t T[24]; int n = 0; uint8_t *p; FILE *f; char *txt; size_t tl;
+#define E_DER(fn, OTH, SZ, call) do { rd_t *t = &T[n++]; t->name = #fn; t->rd = rd_##fn; t->osz = SZ; t->other = OTH; p = t->enc; t->el = 0; if ((call) != 1) vh_harness_error("encode for " #fn); } while (0)
+#define E_PEM(fn, OTH, SZ, call) do { rd_t *t = &T[n++]; t->name = #fn; t->rd = rd_##fn; t->osz = SZ; t->other = OTH; txt = NULL; tl = 0; f = open_memstream(&txt, &tl); int r_ = (call); fclose(f); if (r_ != 1 || tl > sizeof t->enc) vh_harness_error("encode for " #fn); memcpy(t->enc, txt, tl); t->el = tl; free(txt); } while (0)
+	E_DER(sm2_public_key_info_from_der, &ko, sizeof k, sm2_public_key_info_to_der(&k, &p, &t->el)); E_PEM(sm2_public_key_info_from_pem, &ko, sizeof k, sm2_public_key_info_to_pem(&k, f));
+	E_DER(sm2_private_key_from_der, &ko, sizeof k, sm2_private_key_to_der(&k, &p, &t->el)); E_PEM(sm2_private_key_from_pem, &ko, sizeof k, sm2_private_key_to_pem(&k, f));
+	E_DER(sm2_private_key_info_from_der, &ko, sizeof k, sm2_private_key_info_to_der(&k, &p, &t->el)); E_PEM(sm2_private_key_info_from_pem, &ko, sizeof k, sm2_private_key_info_to_pem(&k, f));
+	E_DER(sm2_private_key_info_decrypt_from_der, &ko, sizeof k, sm2_private_key_info_encrypt_to_der(&k, "pw", &p, &t->el)); E_PEM(sm2_private_key_info_decrypt_from_pem, &ko, sizeof k, sm2_private_key_info_encrypt_to_pem(&k, "pw", f));
+	{ uint8_t nm[128]; size_t nl = 0; x509_name_set(nm, &nl, sizeof nm, "CN", NULL, NULL, "Org", NULL, "reuse"); uint8_t ser[3] = { 1, 2, 3 }; E_DER(x509_cert_get_subject_public_key, &ko, sizeof k, x509_cert_sign_to_der(X509_version_v3, ser, 3, OID_sm2sign_with_sm3, nm, nl, 1790000000 - 1000, 1790000000 + 100000, nm, nl, &k, NULL, 0, NULL, 0, NULL, 0, &ko, SM2_DEFAULT_ID, SM2_DEFAULT_ID_LENGTH, &p, &t->el)); }
+	E_DER(sm9_sign_master_key_from_der, &smo, sizeof sm, sm9_sign_master_key_to_der(&sm, &p, &t->el)); E_DER(sm9_sign_master_public_key_from_der, &smo, sizeof sm, sm9_sign_master_public_key_to_der(&sm, &p, &t->el)); E_PEM(sm9_sign_master_public_key_from_pem, &smo, sizeof sm, sm9_sign_master_public_key_to_pem(&sm, f));
+	E_PEM(sm9_sign_master_key_info_decrypt_from_pem, &smo, sizeof sm, sm9_sign_master_key_info_encrypt_to_pem(&sm, "pw", f));
+	E_DER(sm9_sign_key_from_der, &sko, sizeof sk, sm9_sign_key_to_der(&sk, &p, &t->el)); E_PEM(sm9_sign_key_info_decrypt_from_pem, &sko, sizeof sk, sm9_sign_key_info_encrypt_to_pem(&sk, "pw", f));
+	E_DER(sm9_enc_master_key_from_der, &emo, sizeof em, sm9_enc_master_key_to_der(&em, &p, &t->el)); E_DER(sm9_enc_master_public_key_from_der, &emo, sizeof em, sm9_enc_master_public_key_to_der(&em, &p, &t->el)); E_PEM(sm9_enc_master_public_key_from_pem, &emo, sizeof em, sm9_enc_master_public_key_to_pem(&em, f));
+	E_PEM(sm9_enc_master_key_info_decrypt_from_pem, &emo, sizeof em, sm9_enc_master_key_info_encrypt_to_pem(&em, "pw", f));
+	E_DER(sm9_enc_key_from_der, &eko, sizeof ek, sm9_enc_key_to_der(&ek, &p, &t->el)); E_PEM(sm9_enc_key_info_decrypt_from_pem, &eko, sizeof ek, sm9_enc_key_info_encrypt_to_pem(&ek, "pw", f));
+	for (int i = 0; i < n; i++) { if (!vh_next()) continue; rd_t *t = &T[i]; uint8_t *z = (uint8_t *)calloc(1, t->osz), *u = (uint8_t *)malloc(t->osz), *a = (uint8_t *)malloc(t->osz); memcpy(u, t->other, t->osz); memset(a, 0xAA, t->osz);
+		int r0 = t->rd(z, t->enc, t->el), r1 = t->rd(u, t->enc, t->el), r2 = t->rd(a, t->enc, t->el); vh_eval(vh_hash(t->name, strlen(t->name), 9900));
+		if (r0 != 1 || r1 != 1 || r2 != 1) viol_rt(t->name, "own-encoding-refused-for-some-destination", "\"fresh\":%d,\"holding_another_key\":%d,\"poisoned\":%d", r0, r1, r2);
+		else { if (memcmp(z, u, t->osz)) viol_rt(t->name, "decoded-object-keeps-content-of-the-destination", "\"destination\":\"held another complete key\""); if (memcmp(z, a, t->osz)) viol_rt(t->name, "decoded-object-keeps-content-of-the-destination:poison", "\"destination\":\"0xAA fill\""); }
+		free(z); free(u); free(a); vh_sample("{\"block\":\"reused-destination\",\"reader\":\"%s\",\"object_size\":%zu,\"encoding_len\":%zu}", t->name, t->osz, t->el); }
+}
+static void body(void) { blk_decoders(); blk_text(); blk_composite(); blk_typed_pem(); blk_reused_destination(); blk_values(); }
 int main(int argc, char **argv) { vh_init(argc, argv); vh_guarded("C14", body, 120); return vh_finish(); }
